@@ -262,6 +262,9 @@ func checkC18(c *CheckCtx) error {
 	if err := c.randomFraming(c.pick(200, 3000), []string{"yaml"}, []string{"ci", "default", "update", "color"}, 0.4, "y"); err != nil {
 		return err
 	}
+	if err := c.repro(hugeLine()...); err != nil {
+		return err
+	}
 	return c.randomFraming(c.pick(60, 800), []string{"yaml", "snapshot", "json"}, []string{"ci", "update"}, 0.3, "z")
 }
 
